@@ -34,7 +34,7 @@ T value_fn(Cfg const& c, CallEv<T>& e, Access<T>& a)
     std::uint64_t h = point_hash(e.point, c.salt);
     T v = T(0.5);
     for (T x : (e.kind == 2 ? e.coords : e.point)) v *= T(0.3) + x * x;
-    if (c.dist) a.add(0, e.point[0], v);
+    if (c.dist) { a.add(0, e.point[0], v); if (h % 3) a.add(1, e.point[e.point.size() - 1] * e.point[0], T(2) * v); }
     if (h % 7 == 0) return T();
     if (h % 41 == 0) return std::numeric_limits<T>::quiet_NaN();
     return ((h & 8) || c.target > T()) ? v : -v;     // with a target the integrand keeps one sign so that the target can be reached
@@ -95,16 +95,17 @@ hep::plain_result<T> serial_iteration(Cfg const& c, std::size_t calls, E& gen, L
 {
     RecIntegrand<T> f = make_f(c, log);
     hep::distribution_parameters<T> dp = hep::make_dist_params<T>(6, T(0), T(1), "d");
-    if (c.integ == 0) return c.dist ? hep::plain_iteration(hep::make_integrand<T>(f, c.dims, dp), calls, gen) : hep::plain_iteration(hep::make_integrand<T>(f, c.dims), calls, gen);
+    hep::distribution_parameters<T> dp2 = hep::make_dist_params<T>(9, T(0), T(0.7), "second");
+    if (c.integ == 0) return c.dist ? hep::plain_iteration(hep::make_integrand<T>(f, c.dims, dp, dp2), calls, gen) : hep::plain_iteration(hep::make_integrand<T>(f, c.dims), calls, gen);
     if (c.integ == 1)
     {
-        hep::vegas_result<T> r = c.dist ? hep::vegas_iteration(hep::make_integrand<T>(f, c.dims, dp), calls, *pdf, gen) : hep::vegas_iteration(hep::make_integrand<T>(f, c.dims), calls, *pdf, gen);
+        hep::vegas_result<T> r = c.dist ? hep::vegas_iteration(hep::make_integrand<T>(f, c.dims, dp, dp2), calls, *pdf, gen) : hep::vegas_iteration(hep::make_integrand<T>(f, c.dims), calls, *pdf, gen);
         *adjustment = r.adjustment_data();
         return r;
     }
     if (c.dist)
     {
-        auto integrand = hep::make_multi_channel_integrand<T>(f, c.dims, c.map, c.dims, c.channels, dp);
+        auto integrand = hep::make_multi_channel_integrand<T>(f, c.dims, c.map, c.dims, c.channels, dp, dp2);
         hep::multi_channel_result<T> r = hep::multi_channel_iteration(integrand, calls, *weights, gen);
         *adjustment = r.adjustment_data();
         return r;
@@ -195,19 +196,20 @@ void run_case(Rng& rng, std::uint64_t idx)
     VC vres(gen0, c.bins, T(1.5));
     MC mres(gen0, T(0.01), T(0.25));
     hep::distribution_parameters<T> dp = hep::make_dist_params<T>(6, T(0), T(1), "d");
+    hep::distribution_parameters<T> dp2 = hep::make_dist_params<T>(9, T(0), T(0.7), "second");
     vf_mpi_run(world, P, wseed, [&](int rank, MPI_Comm comm) {
         RecIntegrand<T> f = make_f(c, &out[rank].log);
         if (c.integ == 0)
         {
             Cb<PC> cb = {&out[rank], hep::mpi_callback<PC>(hep::callback_mode::silent, "", c.target)};
-            PC r = c.dist ? hep::mpi_plain(comm, hep::make_integrand<T>(f, c.dims, dp), calls, PC(gen0), cb) : hep::mpi_plain(comm, hep::make_integrand<T>(f, c.dims), calls, PC(gen0), cb);
+            PC r = c.dist ? hep::mpi_plain(comm, hep::make_integrand<T>(f, c.dims, dp, dp2), calls, PC(gen0), cb) : hep::mpi_plain(comm, hep::make_integrand<T>(f, c.dims), calls, PC(gen0), cb);
             out[rank].final_text = text_of_chk(r);
             if (rank == 0) pres = r;
         }
         else if (c.integ == 1)
         {
             Cb<VC> cb = {&out[rank], hep::mpi_callback<VC>(hep::callback_mode::silent, "", c.target)};
-            VC r = c.dist ? hep::mpi_vegas(comm, hep::make_integrand<T>(f, c.dims, dp), calls, VC(gen0, c.bins, T(1.5)), cb)
+            VC r = c.dist ? hep::mpi_vegas(comm, hep::make_integrand<T>(f, c.dims, dp, dp2), calls, VC(gen0, c.bins, T(1.5)), cb)
                           : hep::mpi_vegas(comm, hep::make_integrand<T>(f, c.dims), calls, VC(gen0, c.bins, T(1.5)), cb);
             out[rank].final_text = text_of_chk(r);
             if (rank == 0) vres = r;
@@ -215,7 +217,7 @@ void run_case(Rng& rng, std::uint64_t idx)
         else
         {
             Cb<MC> cb = {&out[rank], hep::mpi_callback<MC>(hep::callback_mode::silent, "", c.target)};
-            MC r = c.dist ? hep::mpi_multi_channel(comm, hep::make_multi_channel_integrand<T>(f, c.dims, c.map, c.dims, c.channels, dp), calls, MC(gen0, T(0.01), T(0.25)), cb)
+            MC r = c.dist ? hep::mpi_multi_channel(comm, hep::make_multi_channel_integrand<T>(f, c.dims, c.map, c.dims, c.channels, dp, dp2), calls, MC(gen0, T(0.01), T(0.25)), cb)
                           : hep::mpi_multi_channel(comm, hep::make_multi_channel_integrand<T>(f, c.dims, c.map, c.dims, c.channels), calls, MC(gen0, T(0.01), T(0.25)), cb);
             out[rank].final_text = text_of_chk(r);
             if (rank == 0) mres = r;
